@@ -1,6 +1,7 @@
 import QP.Model.PT
 import QP.Proofs.PTExamples
 import QP.Proofs.PTTop2
+import QP.Proofs.PTTop3
 import QP.Proofs.PTTable
 /-!
 # C01 — an instantiated program plays exactly the voltages the template describes
@@ -24,50 +25,48 @@ depend on which atoms are used.
 namespace QP.Props.C01
 open QP.PT
 
-/-- **compile correctness (partial)**: for a stage-1 template the compiled program, sampled anywhere in
-`[0, duration)`, yields on every channel of the denoted pulse exactly the denoted voltage — a value, never NaN —
-and every played piece defines exactly the channels of the denoted pulse (dropped channels absent, no other
-channel appears). -/
-theorem compile_correct_partial {pt : PT} (hs : Stage2 pt) (params : List (String × Rat))
+/-- **compile correctness (partial)**: for a stage-3 template (`Stage3`: constant, function, table atoms and
+`AtomicMultiChannelPT`s of them, composed by sequencing, repetition, indexed iteration, mapping,
+`ParallelChannelPT` and `ArithmeticPT` with a scalar, in any nesting) **outside the class of the open finding
+PF-11** (`inPF11 … = false`: no channel overwritten by a `ParallelChannelPT` is touched by a transformation of an
+enclosing template), the compiled program, sampled anywhere in `[0, duration)`, yields on every channel of the
+denoted pulse exactly the denoted voltage — a value, never NaN — and every played piece defines exactly the
+channels of the denoted pulse (dropped channels absent, overwritten channels present, no other channel). -/
+theorem compile_correct_partial {pt : PT} (hs : Stage3 pt) (params : List (String × Rat))
+    (mm : Option (List (MName × Option MName))) (cm : List (Chan × Option Chan)) (prog : Loop) (P : Pulse)
+    (hpf : inPF11 pt (topCm pt cm) = false)
+    (hprog : createProgram pt params mm cm [] = .ok (some prog))
+    (hden : denoteTop pt params mm cm = .ok P) (hpos : prog.allPos) :
+    (∀ cs ∈ prog.leafChannels, ∀ x, x ∈ cs ↔ x ∈ P.chanNames) ∧
+    ∀ c pl, P.chans.lookup c = some pl → ∀ t, 0 ≤ t → t < P.dur →
+      ∃ v, prog.sample c t = some v ∧ PL.at pl t = some v := by
+  obtain ⟨_, hsample, _, hch, hplDur⟩ := createProgram_relT hs params mm cm prog P hpf hprog hden hpos
+  refine ⟨hch, ?_⟩
+  intro c pl hc t ht0 ht
+  have := hsample c pl hc t ht0 ht
+  -- the denoted function is defined on the whole of `[0, duration)`
+  obtain ⟨v, hv⟩ := PL.at_isSome pl t ht0 (by rw [hplDur c pl hc]; exact ht)
+  exact ⟨v, by rw [this, hv], hv⟩
+
+/-- the same without parallel channels / arithmetic (`Stage2`): no exclusion is needed -/
+theorem compile_correct_stage2 {pt : PT} (hs : Stage2 pt) (params : List (String × Rat))
     (mm : Option (List (MName × Option MName))) (cm : List (Chan × Option Chan)) (prog : Loop) (P : Pulse)
     (hprog : createProgram pt params mm cm [] = .ok (some prog))
     (hden : denoteTop pt params mm cm = .ok P) (hpos : prog.allPos) :
     (∀ cs ∈ prog.leafChannels, ∀ x, x ∈ cs ↔ x ∈ P.chanNames) ∧
     ∀ c pl, P.chans.lookup c = some pl → ∀ t, 0 ≤ t → t < P.dur →
       ∃ v, prog.sample c t = some v ∧ PL.at pl t = some v := by
-  refine ⟨(createProgram_rel_basic hs.basic params mm cm prog P hprog hden hpos).2.2.2, ?_⟩
+  obtain ⟨_, hsample, _, hch, hplDur⟩ := createProgram_rel_basic hs.basic params mm cm prog P hprog hden hpos
+  refine ⟨hch, ?_⟩
   intro c pl hc t ht0 ht
-  obtain ⟨_, hsample, _⟩ := createProgram_rel_basic hs.basic params mm cm prog P hprog hden hpos
   have := hsample c pl hc t ht0 ht
-  -- the denoted function is defined on the whole of `[0, duration)`
-  have hrel : ∃ v, PL.at pl t = some v := by
-    simp only [createProgram, bind_ok, pure_ok] at hprog
-    obtain ⟨ctx, hctx, items, hitems, hp⟩ := hprog
-    simp only [denoteTop, bind_ok] at hden
-    obtain ⟨ctx', hctx', h2⟩ := hden
-    rw [hctx] at hctx'; cases hctx'
-    obtain ⟨hsingle, htrafo⟩ := topCtx_ok hctx
-    have hctx0 : ctx = ctx0 ctx.scope ctx.mm ctx.cm := by
-      cases ctx; simp only [ctx0] at *; simp [hsingle, htrafo]
-    unfold compile at hitems
-    rw [wrapSingle_nil _ _ _ hsingle, hctx0] at hitems
-    have hposl : Loop.allPosList (nodesOf items) := by
-      unfold toProgram at hp
-      simp only [rootLoop, applyItems_eq, List.nil_append, Loop.durationList] at hp
-      by_cases he : (Loop.mk 1 none (measW items 0) (nodesOf items)).isEmpty
-      · simp [he] at hp
-      · simp only [he, Bool.false_eq_true, if_false, Option.some.injEq] at hp
-        subst hp
-        cases hcs : nodesOf items with
-        | nil => exact allPosList_nil
-        | cons c0 cs0 =>
-          rw [hcs] at hpos
-          simp only [Loop.allPos, Loop.allPosB, Bool.and_eq_true] at hpos
-          exact hpos.2
-    have hr := compile_rel hs.basic ctx.scope ctx.mm ctx.cm items P hitems h2 hposl
-    exact PL.at_isSome pl t ht0 (by rw [hr.plDur c pl hc]; exact ht)
-  obtain ⟨v, hv⟩ := hrel
+  obtain ⟨v, hv⟩ := PL.at_isSome pl t ht0 (by rw [hplDur c pl hc]; exact ht)
   exact ⟨v, by rw [this, hv], hv⟩
+
+/-- **under a global transformation**: what a stage-3 template compiles to inside a context that carries the chain
+`T` (pushed by enclosing arithmetic / parallel-channel templates) plays `T` applied, channel by channel, to the
+denoted pulse — provided no transformation of `T` or below touches an overwritten channel (`pf11Chans … = []`). -/
+theorem compile_correct_under_trafo {pt : PT} (hs : Stage3 pt) : CompileOKT pt := compile_relT hs.basicT
 
 /-- **the builder is correct whatever the atoms are**: sequences, repetitions, iterations and mappings of
 atomic templates that satisfy the relation `Rel` (leaf and windows = denoted pulse) satisfy it again — this is
